@@ -309,9 +309,10 @@ def run(ctx):
     ctx.trust("ECMAScript `.` matches any character except line terminators (Appendix D.8)")
     # ---- R02.6: an occurrence count per toggle - C11's counting rules re-evaluated (count reset to 0, one increment of the required form per token)
     ctx.rule("R02.6", "a toggle's result is the number of its occurrences: counted from zero, once per token (R11.1/R11.6 re-evaluated)")
-    if ctx.prop == "C02":
+    if ctx.prop == "C02" and not getattr(ctx, "_sharing", False):
         from . import C11
         sub = type(ctx)(ctx.prop, ctx.prog, ctx.tier)
+        sub._sharing = True
         C11.run(sub)
         n6 = 0
         for o in sub.obs:
@@ -320,6 +321,12 @@ def run(ctx):
                 o.rule = "R02.6"
                 ctx.obs.append(o)
         ctx.need("R02.6", "toggle counting obligations shared with C11", n6, 5)
+    # ---- R02.7: a value given on the command line (the empty string included) is final; bundles are accounted over ALL toggles
+    ctx.rule("R02.7", "a spelled value is never replaced afterwards (R03.1 re-evaluated) and a bundle is accepted exactly when all its letters are toggles (R01.8/R01.10 re-evaluated)")
+    if ctx.prop == "C02" and not getattr(ctx, "_sharing", False):
+        from .common import share
+        share(ctx, "C03", ("R03.1",), "R02.7", "source-order obligations shared with C03", 3)
+        share(ctx, "C01", ("R01.8", "R01.10"), "R02.7", "bundle obligations shared with C01", 3)
     ctx.assume("the round-trip equation itself, interleavings of items and as<T>() numeric conversion are not decided")
 
 
